@@ -218,7 +218,7 @@ func filterReference(text string, data interface{}) string {
 // ---------------------------------------------------------------- C19
 
 func fragDump(g *Gen, n int, o *Out) {
-	indents := []string{"", " ", "  ", "\t", "--", "é", "%s", "\n"}
+	indents := []string{"", " ", "  ", "\t", "--", "é", "%s", "\n", "-", "-1", "1", "11", "-11"}
 	for i := 0; i < n; i++ {
 		text, _, ok := g.renderTop(g.randTree(3))
 		if !ok {
@@ -226,6 +226,9 @@ func fragDump(g *Gen, n int, o *Out) {
 		}
 		ind := indents[g.r.Intn(len(indents))]
 		lvl := g.r.Intn(4)
+		if g.r.Intn(3) == 0 {
+			lvl = g.r.Intn(13)
+		}
 		req, ans := dumpCase(text, ind, lvl)
 		o.emit(req, ans)
 		o.count("dump:" + ans[:2])
@@ -292,11 +295,11 @@ func fragOpts(g *Gen, n int, o *Out) {
 		datum, root, paths := datumAndPaths(g, "bexpr")
 		// include hook-relevant data sometimes
 		if g.r.Intn(3) == 0 {
-			datum = map[string]interface{}{"w": Wrap{V: map[string]interface{}{"a": 1, "b": "x"}}, "pw": &Wrap{V: []int{1, 2}}, "n": 5, "J": Inner{J: 3, Y: "y"}}
+			datum = map[string]interface{}{"w": Wrap{V: map[string]interface{}{"a": 1, "b": "x"}}, "pw": &Wrap{V: []int{1, 2}}, "n": 5, "J": Inner{J: 3, Y: "y"}, "acc": Account{ID: 1, Ptag: "p"}}
 			root = reflect.ValueOf(datum)
 			paths = nil
 			enumPaths(root, "bexpr", nil, 4, &paths)
-			paths = append(paths, PathInfo{Parts: []string{"w", "a"}}, PathInfo{Parts: []string{"pw", "0"}}, PathInfo{Parts: []string{"J", "jay"}}, PathInfo{Parts: []string{"J", "why"}})
+			paths = append(paths, PathInfo{Parts: []string{"w", "a"}}, PathInfo{Parts: []string{"pw", "0"}}, PathInfo{Parts: []string{"J", "jay"}}, PathInfo{Parts: []string{"J", "why"}}, PathInfo{Parts: []string{"acc", "pname"}, Val: reflect.ValueOf("p")}, PathInfo{Parts: []string{"acc", "bname"}, Val: reflect.ValueOf("p")}, PathInfo{Parts: []string{"acc", "Ptag"}, Val: reflect.ValueOf("p")})
 		}
 		e := g.genExpr(root, "bexpr", paths, 2, false)
 		text, _, ok := g.renderTop(e)
@@ -305,7 +308,7 @@ func fragOpts(g *Gen, n int, o *Out) {
 		}
 		_, _, N, _ := parseCount(text)
 		all := []OptSpec{
-			{Kind: "tag", Tag: []string{"bexpr", "json", "alt"}[g.r.Intn(3)]},
+			{Kind: "tag", Tag: []string{"bexpr", "json", "alt", "", "pointer"}[g.r.Intn(5)]},
 			{Kind: "hook", Hook: []string{"identity", "unwrap", "const42", "off"}[g.r.Intn(4)]},
 			{Kind: "unk", Unk: []interface{}{"", "u", 0, true, nil}[g.r.Intn(5)]},
 			{Kind: "max", Max: []uint64{0, N, N + 5, 1 << 60, N / 2}[g.r.Intn(5)]},
@@ -384,6 +387,36 @@ func fragHist(g *Gen, n int, o *Out) {
 		map[string]interface{}{"p": map[string]int{}},
 		map[string]interface{}{"p": &holder{}},
 		map[string]interface{}{"p": map[string]interface{}{"zz": 1}},
+	}
+	// a collection updated in place between two calls (same address, same length) is folded over
+	// its CURRENT elements / keys
+	for i := 0; i < n/6+1; i++ {
+		m := map[string]interface{}{"alpha": 1, "x": 2}
+		l := []interface{}{1, 2, 3}
+		d := map[string]interface{}{"labels": m, "xs": l}
+		exprs := []GExpr{
+			GColl{Op: "any", Path: []string{"labels"}, Mode: "default", Def: "k", Inner: GMatch{Path: []string{"k"}, Op: "eq", Raw: "beta", LitStyle: 2}},
+			GColl{Op: "all", Path: []string{"labels"}, Mode: "indexvalue", Idx: "k", Val: "v", Inner: GMatch{Path: []string{"k"}, Op: "ne", Raw: "beta", LitStyle: 2}},
+			GColl{Op: "any", Path: []string{"xs"}, Mode: "default", Def: "e", Inner: GMatch{Path: []string{"e"}, Op: "eq", Raw: "9"}},
+		}
+		text, _, ok := g.renderTop(exprs[g.r.Intn(len(exprs))])
+		if !ok {
+			continue
+		}
+		ev, _ := create(text, nil)
+		if ev == nil {
+			continue
+		}
+		safeEvaluate(ev, d)
+		delete(m, "alpha")
+		m["beta"] = 1
+		l[1] = 9
+		got := safeEvaluate(ev, d)
+		want := evalText(o, nil, text, d)
+		if got != want {
+			o.finding(Finding{Property: "C13", Kind: "failing-history", What: fmt.Sprintf("after an in-place update of the datum a used evaluator returns %s, a fresh one %s", got, want), Request: lastReq(o), Detail: text})
+			o.finding(Finding{Property: "C06", Kind: "failing-history", What: fmt.Sprintf("quantifier folds over stale elements/keys after an in-place update: %s vs %s", got, want), Request: lastReq(o), Detail: text})
+		}
 	}
 	for i := 0; i < n/4+1; i++ {
 		op := matchOps[g.r.Intn(len(matchOps))]
@@ -554,7 +587,8 @@ func fragDet(g *Gen, n int, o *Out) {
 // ---------------------------------------------------------------- C16 (literal fidelity)
 
 func fragQuoteRT(g *Gen, n int, o *Out) {
-	strs := append([]string{}, interestingStrings...)
+	strs := []string{"web 1", "web  1", "web\t1", " web 1", "web 1 ", "a b c", "a  b c", "a b  c"}
+	strs = append(strs, interestingStrings...)
 	strs = append(strs, rawPool...)
 	for i := 0; i < n; i++ {
 		var s string
